@@ -69,12 +69,34 @@ def one_run(prop, seed, tier, index, keep_case=False):
     return res
 
 
+def log_mode(case):
+    """what the application did with pycel's log for this run: 'off' (logging disabled, as a
+    batch job would), 'default' (nothing configured: warnings and errors are emitted), 'debug'"""
+    seed = int(case.get('seed', 0) or 0)
+    return ('off', 'off', 'default', 'debug')[(seed >> 9) & 3]
+
+
+def apply_log_mode(case):
+    import logging
+    lg = logging.getLogger('pycel')
+    if not any(isinstance(h, logging.NullHandler) for h in lg.handlers):
+        lg.addHandler(logging.NullHandler())      # records are made and formatted, not printed
+    lg.propagate = False
+    mode = log_mode(case)
+    logging.disable(logging.CRITICAL if mode == 'off' else logging.NOTSET)
+    lg.setLevel(logging.DEBUG if mode == 'debug' else logging.NOTSET)
+    return mode
+
+
 def run_case_guarded(prop, case):
     """prop.run_case, but an exception that escapes from *pycel* while the harness sets a run
     up (building a workbook, pre-evaluating, saving) is a verdict about pycel, not a harness
     failure: every such call succeeds on the unchanged tree"""
+    mode = apply_log_mode(case)
     try:
-        return prop.run_case(case)
+        res = prop.run_case(case)
+        res.setdefault('counts', {})['log-mode:' + mode] = 1
+        return res
     except Exception as exc:   # noqa
         import pycel
         pycel_dir = os.path.dirname(os.path.abspath(pycel.__file__))
